@@ -95,8 +95,13 @@ class Lane(LaneBase):
         from cai_causal_graph.identify_utils import identify_markov_boundary
         n = case['n']
         names = NAMES[:n]
-        edges = [(NAMES[a], NAMES[b]) for a, b in case['edges']]
-        g = gen.build_dag(n, case['edges'])
+        ts_cls = None
+        if case['kind'] == 'dag' and case['seed'] % 4 == 0 and n >= 2:
+            # the same DAG as a time-series graph: names whose lags grow with depth, so that every edge respects time
+            from cai_causal_graph import TimeSeriesCausalGraph as ts_cls
+            names = gen.ts_names(n, [tuple(e) for e in case['edges']])
+        edges = [(names[a], names[b]) for a, b in case['edges']]
+        g = gen.build_dag(n, case['edges'], names=names, cls=ts_cls)
         sk = g.skeleton
         from cai_causal_graph.identify_utils import identify_colliders as _ic
         _nf = gen.nodeform_agree(g, names, [
